@@ -504,6 +504,10 @@ func ruleC04(c *Ctx, r *Result) {
 				r.Hold("C04.4", c.Name(wc)+"#write-at-fresh-address", c.InstrPos(site), "")
 			case k == "hdf5.DatasetWriter.layoutBTreeOffset":
 				r.Hold("C04.4", c.Name(wc)+"#index-address-patch", c.InstrPos(site), "the one in-place write: the chunk-index address inside the object's own header")
+			case c.ownedFixedSizeSlot(wc, addr):
+				// slots that this dataset allocated itself, reused only for unfiltered chunks (all of one nominal size, C01.7):
+				// ownership holds; whether the bytes written fit the slot is not decided here
+				r.Undec("C04.4", c.Name(wc)+"#write-at-owned-slot", c.InstrPos(site), "chunk bytes are written to a slot this dataset allocated earlier, on a path that excludes filtered (variable-size) chunks; slot size vs bytes written is not decided (the nominal chunk size is the subject of C01.7)")
 			default:
 				r.Viol("C04.4", c.Name(wc)+"#write-at-existing-address", c.InstrPos(site), "chunk bytes are written to an address that was not allocated in this call: a chunk that outgrew its old slot overwrites whatever follows it")
 			}
@@ -758,4 +762,154 @@ func (c *Ctx) paramAlwaysLoadedField(p *ssa.Parameter, prefix string, reach map[
 	}
 	sort.Strings(callers)
 	return n > 0 && len(callers) == 0
+}
+
+// ownedFixedSizeSlot: every source of addr is either a fresh allocation or an element of a DatasetWriter slice field into which
+// the module only ever appends fresh allocations, and the element load is control-dependent on a "no filter pipeline" test.
+func (c *Ctx) ownedFixedSizeSlot(fn *ssa.Function, addr ssa.Value) bool {
+	var slotLoads []*ssa.UnOp
+	ok := true
+	seen := map[ssa.Value]bool{}
+	var walk func(v ssa.Value)
+	walk = func(v ssa.Value) {
+		if seen[v] || !ok {
+			return
+		}
+		seen[v] = true
+		if c.freshAddr(v, 0) {
+			return
+		}
+		switch x := v.(type) {
+		case *ssa.Phi:
+			for _, e := range x.Edges {
+				walk(e)
+			}
+		case *ssa.UnOp:
+			ia, isIA := x.X.(*ssa.IndexAddr)
+			if !isIA {
+				ok = false
+				return
+			}
+			k, _ := fieldLoadKey(ia.X)
+			if !strings.HasPrefix(k, "hdf5.DatasetWriter.") {
+				ok = false
+				return
+			}
+			// every store into that field: append(field, fresh...) or nil/make
+			for _, f := range c.LibFuncs() {
+				for _, fs := range c.DirectFieldStores(f) {
+					if fs.Fn != f || fs.Key != k {
+						continue
+					}
+					st, isSt := fs.In.(*ssa.Store)
+					if !isSt {
+						ok = false
+						continue
+					}
+					if !c.appendOfFresh(st.Val) {
+						ok = false
+					}
+				}
+			}
+			slotLoads = append(slotLoads, x)
+		default:
+			ok = false
+		}
+	}
+	walk(addr)
+	if !ok || len(slotLoads) == 0 {
+		return false
+	}
+	// each slot load sits behind a test that derives from "pipeline is nil/empty"
+	for _, ld := range slotLoads {
+		guarded := false
+		for _, b := range fn.Blocks {
+			ifi, isIf := b.Instrs[len(b.Instrs)-1].(*ssa.If)
+			if !isIf || !edgeDominates(b, b.Succs[0], ld.Block()) {
+				continue
+			}
+			if c.derivesFromNoFilter(ifi.Cond, 0) {
+				guarded = true
+			}
+		}
+		if !guarded {
+			return false
+		}
+	}
+	return true
+}
+
+func (c *Ctx) appendOfFresh(v ssa.Value) bool {
+	switch x := v.(type) {
+	case *ssa.Const:
+		return x.IsNil()
+	case *ssa.MakeSlice:
+		return true
+	case *ssa.Call:
+		if b, isB := x.Call.Value.(*ssa.Builtin); isB && b.Name() == "append" {
+			// appended elements: the variadic slice's stores
+			if len(x.Call.Args) < 2 {
+				return true
+			}
+			sl, isSl := x.Call.Args[1].(*ssa.Slice)
+			if !isSl {
+				return false
+			}
+			al, isAl := sl.X.(*ssa.Alloc)
+			if !isAl {
+				return false
+			}
+			for _, ref := range *al.Referrers() {
+				if ia, isIA := ref.(*ssa.IndexAddr); isIA {
+					for _, r2 := range *ia.Referrers() {
+						if st, isSt := r2.(*ssa.Store); isSt && !c.freshAddr(st.Val, 0) {
+							return false
+						}
+					}
+				}
+			}
+			return true
+		}
+	case *ssa.Phi:
+		for _, e := range x.Edges {
+			if !c.appendOfFresh(e) {
+				return false
+			}
+		}
+		return true
+	}
+	return false
+}
+
+func (c *Ctx) derivesFromNoFilter(v ssa.Value, d int) bool {
+	if d > 6 {
+		return false
+	}
+	switch x := v.(type) {
+	case *ssa.Call:
+		return strings.HasSuffix(c.calleeName(x), "FilterPipeline.IsEmpty")
+	case *ssa.BinOp:
+		if x.Op == token.EQL && (isNilConst(x.X) || isNilConst(x.Y)) {
+			for f := range fieldsReadBy(x.X) {
+				if strings.HasSuffix(f, ".pipeline") {
+					return true
+				}
+			}
+			for f := range fieldsReadBy(x.Y) {
+				if strings.HasSuffix(f, ".pipeline") {
+					return true
+				}
+			}
+		}
+		return c.derivesFromNoFilter(x.X, d+1) || c.derivesFromNoFilter(x.Y, d+1)
+	case *ssa.Phi:
+		for _, e := range x.Edges {
+			if c.derivesFromNoFilter(e, d+1) {
+				return true
+			}
+		}
+	case *ssa.UnOp:
+		return c.derivesFromNoFilter(x.X, d+1)
+	}
+	return false
 }
